@@ -142,7 +142,13 @@ def rule_store_writes(ctx, rid="R15.3"):
             nodes = [n for n in cfg.live if n.ast is w.node]
             tests = [(n, "true") for n in cfg.live if n.kind == "test" and isinstance(n.ast, ast.Attribute) and n.ast.attr == "cache_remote"
                      and calls.type_of(f, n.ast.value) == "RefResolver"]
-            if nodes and tests and all(only_via_edge(cfg, n, tests, True) for n in nodes):
+            from .c07 import store_key_verdict
+            kv = store_key_verdict(prog, f, w)
+            if kv is not None:
+                r.fail("%s|store-key" % f.qual, site(f, w.node),
+                       "%s: the retrieved document is not found again under the URI it was asked for (retrieved again every time), and is "
+                       "served for a URI it was never retrieved for" % kv)
+            elif nodes and tests and all(only_via_edge(cfg, n, tests, True) for n in nodes):
                 r.ok(site(f, w.node), "%s only on the true edge of self.cache_remote" % w.text)
             else:
                 r.fail("%s|unconditional-store-write|%s" % (f.qual, w.text), site(f, w.node),
